@@ -179,12 +179,18 @@ func VF_C19_f() {
 	}
 	b, err := cid.Bytes()
 	vf.Reach("C19.f")
-	vf.Assert(err == nil, "C19.f.encode")
+	// a chain id is encodable iff it can be decoded again: a separator byte inside a field must be refused by the
+	// encoder (finding F2: the unrepaired encoder accepted it and Read then failed or returned other fields)
+	vf.AssertKnown((err != nil) == hasSep, "C19.f.encode", "F2-chainid-separator", hasSep)
+	if err != nil {
+		vf.Observe("encerr", true)
+		return
+	}
 	back := NewChainID()
 	err = back.Read(b)
-	vf.AssertKnown(err == nil, "C19.f.roundtrip", "F2-chainid-separator", hasSep)
+	vf.Assert(err == nil, "C19.f.roundtrip")
 	if err == nil {
-		vf.AssertKnown(cid.Equals(back), "C19.f.roundtrip", "F2-chainid-separator", hasSep)
+		vf.Assert(cid.Equals(back), "C19.f.roundtrip")
 	}
 	vf.Assert(DecodeChainIdVersion(b) == cid.Version, "C19.f.version")
 	vf.Observe("bytes", b)
